@@ -83,6 +83,9 @@ use crate::{
 
 #[cfg(test)]
 mod tests;
+#[cfg(libp2p_verif)] #[path = "verif_c34.rs"] pub mod verif_c34;
+#[cfg(libp2p_verif)] #[path = "verif_c36.rs"] pub mod verif_c36;
+#[cfg(libp2p_verif)] #[path = "verif_c28.rs"] pub mod verif_c28;
 
 /// IDONTWANT cache capacity.
 const IDONTWANT_CAP: usize = 10_000;
@@ -1956,6 +1959,7 @@ where
 
         // Calculate the message id on the transformed data.
         let msg_id = self.config.message_id(&message);
+        #[cfg(libp2p_verif)] crate::verif_c27::tap_recv(propagation_source, &msg_id);
 
         // Broadcast IDONTWANT messages
         if raw_message.raw_protobuf_len() > self.config.idontwant_message_size_threshold()
@@ -3138,6 +3142,7 @@ where
     /// sending the message failed due to the channel to the connection handler being
     /// full (which indicates a slow peer).
     fn send_message(&mut self, peer_id: PeerId, rpc: RpcOut) -> bool {
+        #[cfg(libp2p_verif)] crate::verif_c27::tap_send(&peer_id, &rpc);
         #[cfg(feature = "metrics")]
         if let Some(m) = self.metrics.as_mut() {
             // register bytes sent on the internal metrics.
